@@ -448,6 +448,9 @@ def obligations(tier):
     obs.append(_BOb(f"{PID}/bounded/native survey of secondary entry points: PARAFAC2 variants, TR-ALS, constrained / randomised CP, masks, sparse component, normalisation exits, CMTF, TT-matrix",
                     "tensorly.decomposition:parafac2+tensor_ring_als+constrained_parafac+randomised_parafac+parafac+non_negative_tucker+non_negative_tucker_hals+coupled_matrix_tensor_3d_factorization+tensor_train_matrix",
                     lambda: _e2e.extras(tier, PID), dict(entry_points=9, clauses="those of this property"), "seed 0; tolerances 1e-6 (errors), 1e-8 (structure); one shared run per process, failures filtered by property", pid=PID))
+    # ---- the class wrappers hand every option (rank specifications, normalisation, fixed modes, initialisation, ...) to the functions these obligations are about
+    from . import wrappers as _W
+    obs.extend(_W.obligations(PID))
     return obs
 
 
